@@ -32,7 +32,7 @@ Stateless lines:
 
 Clients of get_position / set_position (`Model/C12/Grammar.lean`).  `GR` / `SK` are grammars /
 skippers in prefix notation, tokens separated by `.`: `any | lit:C | cset:CS | str:S | seq | alt | opt |
-rep | plus | not | fatal` and `eps | space | lit:C | cset:CS | seq | rep` (repetition bodies must consume).
+rep | plus | not | fatal | k1 | k2` and `eps | space | lit:C | cset:CS | seq | rep` (repetition bodies must consume).
 
 * `gp K TEXT FA OPS SK GR`      — history OPS, then `phrase_parse(GR, stream, SK)` over a stream that
                                   records every basic_stream call: result skeleton, every call with its
@@ -230,6 +230,9 @@ def parseP (k : String) : Nat → List String → Option (P × List String)
       pure (c l r, rest)
     match splitColon tok with
     | ("any", none) => some (.any, rest)
+    -- the two fixed grammars the harness builds with children held by value / by unique_ptr
+    | ("k1", none) => some (.seq (.rep (.alt (.lit 97) (.lit 10))) (.not .any), rest)
+    | ("k2", none) => some (.seq (.opt (.lit 97)) (.plus (.cset [97, 10])), rest)
     | ("lit", some a) =>
       match parseText k a with
       | some [c] => some (.lit c, rest)
